@@ -66,7 +66,7 @@ fn main() {
 fn real_main() {
   std::panic::set_hook(Box::new(|_| {}));
   let budget: u64 = std::env::var("RXH_BUDGET").ok().and_then(|s| s.parse().ok()).unwrap_or(200_000);
-  let hang_ms: u64 = std::env::var("RXH_HANG_MS").ok().and_then(|s| s.parse().ok()).unwrap_or(4_000);
+  let hang_ms: u64 = std::env::var("RXH_HANG_MS").ok().and_then(|s| s.parse().ok()).unwrap_or(2_500);
   let stdin = std::io::stdin();
   let stdout = std::io::stdout();
   let mut out = stdout.lock();
